@@ -708,7 +708,7 @@ def _only(adv):
 TESTS = [
     Test("lib_mutations", lib_case, run_lib, quick=120, thorough=1200, max_workers=16,
          must_cover=["flips:every_bit", "flips:sampled256", "mant=64", "mant=exact", "mant=1", "trunc_ext", "extra_mut", "other_commit_gen", "verdict:accept", "verdict:reject"]),
-    Test("ref_prover", ref_case, run_ref, quick=700, thorough=16000, max_workers=16,
+    Test("ref_prover", ref_case, run_ref, quick=600, thorough=16000, max_workers=16,
          must_cover=["small_s", "s_plus_n_twin", "honest:accepted", "exact:accepted", "exp_hi:rejected", "reserved:rejected", "mant_hi:rejected", "overflow:just_below", "overflow:at",
                      "overflow:above", "overflow:accepted", "overflow:rejected", "exp_overflow:rejected", "spare_bits:rejected", "trailing:rejected", "digit_x_ge_p", "digit_off_curve",
                      "digit_x_plus_p:accepted", "digit_x_plus_p_twin", "scalar_zero:rejected", "last_inf:rejected", "wrong_witness:rejected", "ref_sender_rewound", "mant=33-64"]),
